@@ -33,6 +33,7 @@ type c17Record struct {
 	t     *TDesc // concrete type of the encoded value (nil for noise / crafted)
 	enc   *TDesc // type constraint used for encoding
 	desc  string
+	alt   []*TDesc // further reading types that suit this record in particular
 }
 
 // generalize replaces drawn subtrees of a concrete type by the dynamic placeholder.
@@ -851,8 +852,100 @@ func c17SameTypedObject(c *Ctx) *TDesc {
 	return []*TDesc{obj, {K: KList, Elem: obj}, {K: KMap, Elem: obj}, {K: KTuple, Elems: []*TDesc{obj, tString}}}[c.G(4)]
 }
 
+// c17MixedMembers: a tuple or an object whose members have unrelated types (untyped and typed nulls among them,
+// unknowns for MessagePack), written with every member under the placeholder type, so that each member travels in
+// its own wrapper naming its own type; read back as that structure, or as a list / set / map of the placeholder
+// type, whose members must agree.
+func c17MixedMembers(c *Ctx, msgp bool) c17Record {
+	n := 2 + c.G(4)
+	t := &TDesc{K: KTuple}
+	if c.G(3) == 0 {
+		t.K = KObject
+	}
+	d := &VDesc{T: t}
+	for i := 0; i < n; i++ {
+		var m *VDesc
+		switch c.G(5) {
+		case 0:
+			m = &VDesc{T: tDynamic, St: StNull}
+		case 1:
+			m = genValue(c, genType(c, 1, GenOpts{}), 1, GenOpts{Null: true, MaxLen: 2})
+			m.St = StNull
+			m.Elems, m.Keys = nil, nil
+		default:
+			m = genValue(c, genType(c, 1, GenOpts{}), 1, GenOpts{Null: true, Unknown: msgp, MaxLen: 2})
+		}
+		m.stripMarksDeep()
+		d.Elems = append(d.Elems, m)
+		t.Elems = append(t.Elems, m.T)
+		if t.K == KObject {
+			name := []string{"a", "b", "k", "zz", "\u00e9"}[i]
+			t.Names = append(t.Names, name)
+			d.Keys = append(d.Keys, name)
+		}
+	}
+	enc := &TDesc{K: t.K, Names: t.Names}
+	for range t.Elems {
+		enc.Elems = append(enc.Elems, tDynamic)
+	}
+	v := d.Build()
+	rec := c17Record{codec: "json", t: t, enc: enc, desc: d.String()}
+	var err error
+	if msgp {
+		rec.codec = "msgpack"
+		rec.data, err = msgpack.Marshal(v, enc.Cty())
+	} else {
+		rec.data, err = ctyjson.Marshal(v, enc.Cty())
+	}
+	if err != nil {
+		rec.data = []byte{0xc0}
+		if !msgp {
+			rec.data = []byte("null")
+		}
+	}
+	if t.K == KTuple {
+		rec.alt = []*TDesc{{K: KList, Elem: tDynamic}, {K: KSet, Elem: tDynamic}, tDynamic, {K: KList, Elem: &TDesc{K: KList, Elem: tDynamic}}}
+	} else {
+		rec.alt = []*TDesc{{K: KMap, Elem: tDynamic}, tDynamic, {K: KMap, Elem: &TDesc{K: KMap, Elem: tDynamic}}}
+	}
+	return rec
+}
+
+// c17DeepHeaders: one MessagePack collection header repeated, each level announcing many members and holding only
+// the next level - what a decoder sets aside per open level adds up over all of them.
+func c17DeepHeaders(c *Ctx) c17Record {
+	levels := []int{40, 150, 400, 800, 1300}[c.G(5)]
+	hdr := [][]byte{{0xdc, 0xff, 0xff}, {0xdc, 0x01, 0x00}, {0xdd, 0x00, 0x01, 0x00, 0x00}, {0x9f}, {0xde, 0xff, 0xff, 0xa1, 'a'}, {0xdf, 0x00, 0x00, 0x10, 0x00, 0xa1, 'a'}, {0x8f, 0xa1, 'a'}}[c.G(7)]
+	var b []byte
+	for i := 0; i < levels && len(b)+len(hdr) <= c17MaxRecord; i++ {
+		b = append(b, hdr...)
+	}
+	depth := len(b) / len(hdr)
+	if depth > 300 {
+		depth = 300
+	}
+	k := KList
+	if hdr[0] == 0xde || hdr[0] == 0xdf || hdr[0] == 0x8f {
+		k = KMap
+	}
+	deep := tDynamic
+	for i := 0; i < depth; i++ {
+		deep = &TDesc{K: k, Elem: deep}
+	}
+	set := &TDesc{K: KSet, Elem: &TDesc{K: k, Elem: &TDesc{K: k, Elem: tDynamic}}}
+	return c17Record{codec: "crafted", data: b, alt: []*TDesc{deep, deep, set, tDynamic}, desc: fmt.Sprintf("%x x %d", hdr, len(b)/len(hdr))}
+}
+
 func c17GenRecord(c *Ctx) c17Record {
-	kind := c.G(10)
+	kind := c.G(12)
+	switch {
+	case kind == 10:
+		return c17MixedMembers(c, c.G(2) == 0)
+	case kind == 11 && c.G(2) == 0:
+		return c17DeepHeaders(c)
+	case kind == 11:
+		kind = c.G(10)
+	}
 	switch {
 	case kind <= 2: // JSON value (capsule payloads are encoded by encoding/json)
 		t := genType(c, 3, GenOpts{Capsule: c.G(4) == 0})
@@ -1161,6 +1254,8 @@ func simC17Store(c *Ctx) {
 	var target *TDesc
 	rel := "unrelated"
 	switch {
+	case rec.alt != nil && !control && c.G(2) == 0:
+		target, rel = rec.alt[c.G(len(rec.alt))], "derived"
 	case rec.enc == nil || (!control && c.G(6) == 0):
 		target = genType(c, 3, GenOpts{Dynamic: true, Optional: c.G(4) == 0, Capsule: c.G(5) == 0})
 	case control || c.G(3) == 0:
